@@ -1,10 +1,265 @@
 (* FunsNas.v — number-as-string functions (arbitrary precision decimals).
    `sem_nas f vals = Some r` : f is modelled here and yields r on these argument values
-   (r = None is jawk's "nothing"); `None` : f is not modelled in this file. *)
+   (r = None is jawk's "nothing"); `None` : f is not modelled in this file.
+
+   A decimal is a pair (m, s) : Z * Z, mantissa and scale, value = m * 10^(-s), exactly the
+   representation of the `bigdecimal` crate (0.4.10: `int_val : BigInt`, `scale : i64`).
+   Sources followed: bigdecimal src/impl_num.rs (from_str_radix), num-bigint BigInt/BigUint
+   from_str_radix, core i128::from_str, bigdecimal src/lib.rs (normalized, abs, with_scale_round),
+   src/arithmetic/addition.rs, src/impl_ops_sub.rs, src/impl_ops_mul.rs, src/impl_cmp.rs,
+   src/impl_fmt.rs (Display; thresholds 5 / 15 from build.rs).
+   The scale is an unbounded Z here; bigdecimal's is an i64 (only the parser checks the range). *)
 From Jawk Require Import Base F64 Json Printer Fn FunBase.
 Local Open Scope N_scope.
 
+(* ---------- parsing: BigDecimal::from_str ---------- *)
+
+(* s.find(p): the part before the first character satisfying p, and the part after it *)
+Fixpoint split_first (p : N -> bool) (s : str) : str * option str :=
+  match s with
+  | [] => ([], None)
+  | c :: t => if p c then ([], Some t)
+              else let '(a, b) := split_first p t in (c :: a, b)
+  end.
+
+Definition is_exp_sep (c : N) : bool := (c =? 101) || (c =? 69).        (* 'e' 'E' *)
+Definition is_dot (c : N) : bool := c =? 46.
+Definition is_us (c : N) : bool := c =? 95.                             (* '_' *)
+Definition is_digit_or_us (c : N) : bool := is_digit c || is_us c.
+
+Definition p127 : Z := (2 ^ 127)%Z.
+Definition p63z : Z := (2 ^ 63)%Z.
+Definition fits_i128 (z : Z) : bool := ((- p127 <=? z) && (z <? p127))%Z.
+Definition fits_i64 (z : Z) : bool := ((- p63z <=? z) && (z <? p63z))%Z.
+
+(* i128::from_str: optional single sign, at least one digit, ASCII digits only, range checked *)
+Definition i128_digits (neg : bool) (ds : str) : option Z :=
+  match ds with
+  | [] => None
+  | _ :: _ =>
+      if forallb is_digit ds then
+        let v := Z.of_N (N_of_digits ds) in
+        let v := if neg then (- v)%Z else v in
+        if fits_i128 v then Some v else None
+      else None
+  end.
+Definition i128_of_str (s : str) : option Z :=
+  match s with
+  | [] => None
+  | c :: t => if c =? 43 then i128_digits false t
+              else if c =? 45 then i128_digits true t
+              else i128_digits false s
+  end.
+
+(* BigUint::from_str_radix(_, 10) once the optional '+' is removed: not empty, no leading '_',
+   digits and '_' only ('_' skipped) *)
+Definition biguint_body (s : str) : option N :=
+  match s with
+  | [] => None
+  | c :: _ => if is_us c then None
+              else if forallb is_digit_or_us s then Some (N_of_digits (filter is_digit s))
+              else None
+  end.
+(* a leading '+' is dropped unless followed by another '+' *)
+Definition biguint_of_str (s : str) : option N :=
+  match s with
+  | c :: t =>
+      if c =? 43 then
+        match t with
+        | c2 :: _ => if c2 =? 43 then biguint_body s else biguint_body t
+        | [] => biguint_body t
+        end
+      else biguint_body s
+  | [] => None
+  end.
+(* BigInt::from_str_radix: a leading '-' is dropped unless followed by '+' *)
+Definition bigint_of_str (s : str) : option Z :=
+  match s with
+  | c :: t =>
+      if c =? 45 then
+        let s' := match t with
+                  | c2 :: _ => if c2 =? 43 then s else t
+                  | [] => t
+                  end in
+        option_map (fun n => (- Z.of_N n)%Z) (biguint_of_str s')
+      else option_map Z.of_N (biguint_of_str s)
+  | [] => None
+  end.
+
+Definition dec_parse (s : list N) : option (Z * Z) :=
+  let '(base, ex) := split_first is_exp_sep s in
+  match (match ex with None => Some 0%Z | Some e => i128_of_str e end) with
+  | None => None
+  | Some ev =>
+      match base with
+      | [] => None
+      | _ :: _ =>
+          let '(lead, tr) := split_first is_dot base in
+          let '(digits, off) :=
+            match tr with
+            | None => (base, 0%Z)
+            | Some [] => (lead, 0%Z)                       (* the point is the last character *)
+            | Some trail =>
+                (lead ++ trail, Z.of_nat (length (filter (fun c => negb (is_us c)) trail)))
+            end in
+          let scale := (off - ev)%Z in
+          if fits_i64 scale then
+            match bigint_of_str digits with
+            | Some m => Some (m, scale)
+            | None => None
+            end
+          else None
+      end
+  end.
+
+(* ---------- arithmetic ---------- *)
+
+Definition pow10 (k : Z) : Z := (10 ^ k)%Z.                 (* only used with k >= 0 *)
+
+(* both mantissas brought to the larger scale *)
+Definition dec_align (a b : Z * Z) : Z * Z * Z :=
+  let '(ma, sa) := a in
+  let '(mb, sb) := b in
+  let s := Z.max sa sb in
+  ((ma * pow10 (s - sa))%Z, (mb * pow10 (s - sb))%Z, s).
+
+(* AddAssign<BigDecimal>: a zero operand leaves the other one untouched (scale included) *)
+Definition dec_add (a b : Z * Z) : Z * Z :=
+  if (fst b =? 0)%Z then a
+  else if (fst a =? 0)%Z then b
+  else let '(x, y, s) := dec_align a b in ((x + y)%Z, s).
+
+(* Sub<BigDecimal> for BigDecimal *)
+Definition dec_sub (a b : Z * Z) : Z * Z :=
+  if (fst b =? 0)%Z then a
+  else if (fst a =? 0)%Z then ((- fst b)%Z, snd b)
+  else let '(x, y, s) := dec_align a b in ((x - y)%Z, s).
+
+(* is_one_quickcheck() == Some(true) *)
+Definition dec_is_one (a : Z * Z) : bool :=
+  let '(m, s) := a in ((0 <=? s) && (s <=? 38) && (m =? pow10 s))%Z.
+
+(* MulAssign<BigDecimal> *)
+Definition dec_mul (a b : Z * Z) : Z * Z :=
+  if dec_is_one a then b
+  else if dec_is_one b then a
+  else ((fst a * fst b)%Z, (snd a + snd b)%Z).
+
+Definition dec_abs (a : Z * Z) : Z * Z := (Z.abs (fst a), snd a).
+
+Definition dec_cmp (a b : Z * Z) : comparison :=
+  let '(x, y, _) := dec_align a b in Z.compare x y.
+
+(* normalized(): zero is (0, 0); otherwise the trailing decimal zeros of the mantissa are removed *)
+Fixpoint strip10 (fuel : nat) (m s : Z) : Z * Z :=
+  match fuel with
+  | O => (m, s)
+  | S f => if (Z.rem m 10 =? 0)%Z then strip10 f (Z.quot m 10) (s - 1)%Z else (m, s)
+  end.
+Definition dec_normalize (a : Z * Z) : Z * Z :=
+  let '(m, s) := a in
+  if (m =? 0)%Z then (0%Z, 0%Z) else strip10 (N.size_nat (Z.abs_N m)) m s.
+
+(* round(0) = with_scale_round(0, HalfEven): half-even rounding of the exact value to an integer.
+   For s <= 0 bigdecimal multiplies the mantissa out to scale 0; the value is already an integer and
+   the result is normalized afterwards, so the pair is kept as it is.  When the scale exceeds the
+   number of digits, |value| < 0.1 and the result is 0 (bigdecimal's `Less` branch). *)
+Definition dec_round (a : Z * Z) : Z * Z :=
+  let '(m, s) := a in
+  if (m =? 0)%Z then (0%Z, 0%Z)
+  else if (s <=? 0)%Z then a
+  else if (Z.of_nat (length (digits_of_N (Z.abs_N m))) <? s)%Z then (0%Z, 0%Z)
+  else
+    let p := pow10 s in
+    let q := (Z.abs m / p)%Z in
+    let r2 := (2 * (Z.abs m mod p))%Z in
+    let q' := if (p <? r2)%Z then (q + 1)%Z
+              else if (r2 =? p)%Z && Z.odd q then (q + 1)%Z
+              else q in
+    ((if (m <? 0)%Z then (- q')%Z else q'), 0%Z).
+
+(* ---------- Display (to_string) ---------- *)
+
+(* {:+} of an integer *)
+Definition show_signed (z : Z) : list N :=
+  if (z <? 0)%Z then digits_of_Z z else 43 :: digits_of_Z z.
+
+Definition dec_show (a : Z * Z) : list N :=
+  let '(m, sc) := a in
+  let ds := digits_of_N (Z.abs_N m) in
+  let scale := if (m =? 0)%Z then 0%Z else sc in
+  let len := Z.of_nat (length ds) in
+  let leading_zeros := if ((0 <=? scale) && (len <=? scale))%Z then (scale - len)%Z else 0%Z in
+  let trailing_zeros := if (scale <=? 0)%Z then (- scale)%Z else 0%Z in
+  let body :=
+    if (5 <? leading_zeros)%Z then                                   (* d.dddE-x *)
+      match ds with
+      | [] => []
+      | d0 :: rest =>
+          (d0 :: match rest with [] => [] | _ :: _ => 46 :: rest end)
+          ++ 69 :: show_signed (len - scale - 1)%Z
+      end
+    else if (15 <? trailing_zeros)%Z then                            (* ddde+x *)
+      ds ++ 101 :: show_signed (- scale)%Z
+    else if (scale <=? 0)%Z then ds ++ repeat 48 (Z.to_nat (- scale))
+    else if (scale <? len)%Z then
+      let k := Z.to_nat (len - scale) in firstn k ds ++ 46 :: skipn k ds
+    else 48 :: 46 :: repeat 48 (Z.to_nat (scale - len)) ++ ds in
+  if (m <? 0)%Z then 45 :: body else body.
+
+(* ---------- the functions ---------- *)
+
+(* to_big_decimal: strings only *)
+Definition to_dec (v : option json) : option (Z * Z) :=
+  match v with
+  | Some (JStr s) => dec_parse s
+  | _ => None
+  end.
+
+(* impl From<BigDecimal> for JsonValue *)
+Definition of_dec (d : Z * Z) : json := JStr (dec_show (dec_normalize d)).
+
+Fixpoint fold_decs (op : Z * Z -> Z * Z -> Z * Z) (acc : Z * Z) (vals : list (option json))
+  : option (Z * Z) :=
+  match vals with
+  | [] => Some acc
+  | v :: t => match to_dec v with
+              | Some d => fold_decs op (op acc d) t
+              | None => None
+              end
+  end.
+
+Definition nas_unary (op : Z * Z -> Z * Z) (vals : list (option json)) : option json :=
+  option_map (fun d => of_dec (op d)) (to_dec (arg vals 0%nat)).
+
+Definition nas_compare (test : comparison -> bool) (vals : list (option json)) : option json :=
+  match to_dec (arg vals 0%nat), to_dec (arg vals 1%nat) with
+  | Some a, Some b => Some (JBool (test (dec_cmp a b)))
+  | _, _ => None
+  end.
+
+Definition nas_sub (vals : list (option json)) : option json :=
+  match vals with
+  | [v] => option_map (fun d => of_dec (dec_sub (0%Z, 0%Z) d)) (to_dec v)
+  | _ => match to_dec (arg vals 0%nat), to_dec (arg vals 1%nat) with
+         | Some a, Some b => Some (of_dec (dec_sub a b))
+         | _, _ => None
+         end
+  end.
+
 Definition sem_nas (f : fn) (vals : list (option json)) : option (option json) :=
   match f with
+  | FNas_add => Some (option_map of_dec (fold_decs dec_add (0%Z, 0%Z) vals))
+  | FNas_mul => Some (option_map of_dec (fold_decs dec_mul (1%Z, 0%Z) vals))
+  | FNas_sub_ => Some (nas_sub vals)
+  | FNas_abs => Some (nas_unary dec_abs vals)
+  | FNas_normalize => Some (nas_unary (fun d => d) vals)
+  | FNas_round => Some (nas_unary dec_round vals)
+  | FNas_eq => Some (nas_compare (fun c => match c with Eq => true | _ => false end) vals)
+  | FNas_neq => Some (nas_compare (fun c => match c with Eq => false | _ => true end) vals)
+  | FNas_lt => Some (nas_compare (fun c => match c with Lt => true | _ => false end) vals)
+  | FNas_lte => Some (nas_compare (fun c => match c with Gt => false | _ => true end) vals)
+  | FNas_gt => Some (nas_compare (fun c => match c with Gt => true | _ => false end) vals)
+  | FNas_gte => Some (nas_compare (fun c => match c with Lt => false | _ => true end) vals)
   | _ => None
   end.
